@@ -8,8 +8,9 @@ Oracle   (1) reference model of the documented protocol (backup.h): R: if md5(fi
              file := f(file); md5rec := md5(file).  File, backup and md5 file are compared with the model after every step.
          (2) the property's invariant, checked directly after every run: the backup holds the last text that uncrustify did
              not write itself (the file's content before the earliest run since the last byte-changing user edit) and the md5
-             file names the content uncrustify last left.  After a killed run only the C13 invariant is required, and the
-             backup invariant is suspended until the next user edit.
+             file names the content uncrustify last left.  A killed run counts as a run: the invariant must hold again after the next
+             completed run, whatever protocol point the earlier run died at (directly after a killed run only the C13 invariant
+             is required - the backup or the md5 file may be half written).
 """
 import hashlib
 import itertools
@@ -191,11 +192,12 @@ def run_history(ops):
             if got_file != orig and got_backup != (orig if md5(orig) != m.md5rec else m.backup):
                 fails.append((dict(sig, relation='killed-run-backup'), dict(rep, backup=core.preview(got_backup or b'<none>', 200))))
                 return fails, {'runs': nruns}
-            # re-synchronise the model with the disk; the backup invariant is suspended until the next user edit
+            # re-synchronise the model with the disk (the next completed run must restore the invariant)
             m.file, m.backup, m.md5rec = got_file, got_backup, got_md5
+            if orig != m.last_left:
+                m.expected_backup = orig          # the killed run was a run: it saw text that uncrustify had not left there
             if got_file != orig:
                 m.last_left = got_file
-            m.suspended = True
             last_kill = op
             tmp = os.path.join(d, NAME + '.uncrustify')
             if os.path.exists(tmp):
@@ -294,5 +296,5 @@ def main(ctx):
                 'history with >= 2 runs; distinct by the operation sequence.' % (len(hs), L, core.NPROC, nlong))
     ctx.assumptions = ['a user write whose bytes equal the text uncrustify last left in the file (md5 recorded) is not a user edit: '
                        'the md5 protocol cannot distinguish it, and the statement speaks of text uncrustify did not write itself',
-                       'after a killed run only the C13 invariant is required; the backup invariant is suspended until the next user edit',
+                       'directly after a killed run only the C13 invariant is required; the backup invariant must hold again after the next completed run',
                        'reference formatting f_cfg(x) comes from stdin-mode runs of the same binary']
